@@ -30,6 +30,9 @@ func checkC01(c *Check) {
 	// direct stores of identity fields outside the bind function (e.g. in a constructor or recycler)
 	for _, s := range t.Of("userstore") {
 		if (s.Field == "login" || s.Field == "hasRUL") && !t.BindFns[s.Fn] {
+			if isZeroOrg(s.Val) {
+				continue // the zero value written out in a literal: still unbound
+			}
 			c.Bad("who-may-write-identity", "store to user."+s.Field+" in "+s.Fn.Name(), s.Pos(p), "identity field written outside the bind function")
 		}
 	}
